@@ -1,0 +1,23 @@
+//go:build verif
+
+package keeper
+
+// Machine-checked contracts for the govc verifier (/verif). Comment-only; compiled only with -tags verif.
+
+// First-generation vault sweep, per-vault step (C14, C09): the step runs inside the iteration of one whitelisted app whose
+// circuit breaker and emergency shutdown were checked by the enclosing loop (stated as precondition). It seizes (removes)
+// the vault only if the vault belongs to THAT app - so a vault of an app with the breaker on is never seized during another
+// app's iteration - and only if its ratio (principal + interest + closing fee) is below the product's minimum ratio.
+//@ func (k Keeper) LiquidateVaults$1
+//@   property C14, C09
+//@   let app = appIds[i]
+//@   let v0 = vault
+//@   let ep = K("asset").GetPairsVault(ctx, vault.ExtendedPairVaultID).0
+//@   requires #index: 0 <= i && i < len(appIds)
+//@   requires #outer-loop-guard: !K("esm").GetKillSwitchData(ctx, appIds[i]).0.BreakerEnable && !(K("esm").GetESMStatus(ctx, appIds[i]).1 && K("esm").GetESMStatus(ctx, appIds[i]).0.Status)
+//@   requires #vault-stored: K("vault").GetVault(ctx, vault.Id).1 && K("vault").GetVault(ctx, vault.Id).0 == vault
+//@   letpost gone = !K("vault").GetVault(ctx, v0.Id).1
+//@   ensures [C14] #c14-seized-only-in-own-app-iteration: result == nil && gone ==> v0.AppId == app
+//@   ensures [C14] #c14-breaker-of-vault-app: result == nil && gone ==> !old(K("esm").GetKillSwitchData(ctx, v0.AppId).0.BreakerEnable) && !old(K("esm").GetESMStatus(ctx, v0.AppId).1 && K("esm").GetESMStatus(ctx, v0.AppId).0.Status)
+//@   ensures [C09] #c09-only-unsafe: result == nil && gone ==> old(K("vault").CalculateCollateralizationRatio(ctx, v0.ExtendedPairVaultID, v0.AmountIn, v0.AmountOut + v0.InterestAccumulated + v0.ClosingFeeAccumulated).1 == nil && K("vault").CalculateCollateralizationRatio(ctx, v0.ExtendedPairVaultID, v0.AmountIn, v0.AmountOut + v0.InterestAccumulated + v0.ClosingFeeAccumulated).0 < ep.MinCr)
+//@   cover #seizure-reachable: result == nil && gone
